@@ -91,7 +91,9 @@ where
         let start = SystemTime::now();
         let mut request = req;
         let enable_auth = self.app_share_data.sys_config.openapi_enable_auth;
-        let path = request.path();
+        // the path the router matches on (percent-escapes of plain characters decoded), not the raw one:
+        // "/%6eacos/v1/cs/configs" is routed like "/nacos/v1/cs/configs" and must be checked like it
+        let path = request.match_info().as_str();
         let is_check_path = if enable_auth {
             (API_PATH.is_match(path) || R_NACOS_API_PATH.is_match(path))
                 && !IGNORE_PATH.contains(&path)
